@@ -34,6 +34,11 @@ pub(crate) struct SubSocketBackend {
     socket_options: SocketOptions,
     pub(crate) socket_monitor: Mutex<Option<mpsc::Sender<SocketEvent>>>,
     subs: Mutex<HashSet<String>>,
+    /// Serialises a change of `subs` together with its fan-out to the registered peers
+    /// against announcing `subs` to a peer that is being registered. Without it a
+    /// subscribe/unsubscribe that runs between a new peer's snapshot of `subs` and its
+    /// registration is never sent to that peer (or is sent to it twice).
+    subs_update: futures::lock::Mutex<()>,
 }
 
 impl SubSocketBackend {
@@ -50,6 +55,7 @@ impl SubSocketBackend {
             socket_options: options,
             socket_monitor: Mutex::new(None),
             subs: Mutex::new(HashSet::new()),
+            subs_update: futures::lock::Mutex::new(()),
         }
     }
 
@@ -85,6 +91,7 @@ impl MultiPeerBackend for SubSocketBackend {
     async fn peer_connected(self: Arc<Self>, peer_id: &PeerIdentity, io: FramedIo) {
         let (recv_queue, mut send_queue) = io.into_parts();
 
+        let _subs_update = self.subs_update.lock().await;
         let subs_msgs: Vec<ZmqMessage> = self
             .subs
             .lock()
@@ -138,6 +145,8 @@ impl SubSocket {
         // subscriptions, so only a change of the set may go on the wire: repeating a
         // SUBSCRIBE would leave the peers connected now with one more subscription than a
         // single unsubscribe removes, and than later peers ever hear about.
+        let backend = self.backend.clone();
+        let _subs_update = backend.subs_update.lock().await;
         if !self.backend.subs.lock().insert(subscription.to_string()) {
             return Ok(());
         }
@@ -146,6 +155,8 @@ impl SubSocket {
     }
 
     pub async fn unsubscribe(&mut self, subscription: &str) -> ZmqResult<()> {
+        let backend = self.backend.clone();
+        let _subs_update = backend.subs_update.lock().await;
         if !self.backend.subs.lock().remove(subscription) {
             return Ok(());
         }
